@@ -483,25 +483,61 @@ class Gen:
             if call == "ping" and self.ping:
                 call = "pub 0 74 6869"
             self.emit("wpol g", "call %s %s" % (tag, call))
-            what = r.choice(["ok", "ok", "fail", "close", "disconnect", "brk"])
+            # more requests queue up on the write semaphore behind the blocked one; the broker may answer meanwhile
+            def ident(c):
+                if c.startswith(("sub", "unsub")):
+                    self.txn += 1
+                    return (0x6000 if c.startswith("sub") else 0x4000) | ((self.txn - 1) & 0x1fff)
+                return None
+            queued = [(tag, call, ident(call))]
+            slot = self.ping or (tag if call == "ping" else None)
+            if r.random() < 0.6:
+                for _ in range(r.choice([1, 1, 2, 3, 4, 6])):
+                    roll = r.random()
+                    if roll < 0.3:
+                        self.emit("feed d000 block")          # PINGRESP, solicited or not
+                        slot = None
+                        self.ping = None
+                    elif roll < 0.45 and len(queued) > 1:
+                        qt, qc, _ = queued.pop(r.randrange(1, len(queued)))
+                        self.emit("quit %s" % qt)
+                        if slot == qt:
+                            slot = None
+                    else:
+                        self.ntag += 1
+                        qt = "t%d" % self.ntag
+                        qc = r.choice(["ping", "ping", "pub 0 74 6869", "sub 1 612f23", "unsub 61"])
+                        self.emit("call %s %s" % (qt, qc))
+                        if qc == "ping":
+                            if slot is None:
+                                slot = qt
+                                queued.append((qt, qc, None))
+                        else:
+                            queued.append((qt, qc, ident(qc)))
+            what = r.choice(["ok", "ok", "ok", "fail", "close", "disconnect", "brk"] if len(queued) > 1 else ["ok", "ok", "fail", "close", "disconnect", "brk"])
+            if len(queued) > 1 and what in ("fail", "brk"):
+                # the queued requests would poll for the reconnect in an order the model does not fix
+                for qt, qc, _ in queued[2:]:
+                    self.emit("quit %s" % qt)
+                self.waiter = queued[1][0]
             if what == "ok":
                 self.emit("wgo ok")
-                if call.startswith("sub"):
-                    self.subs.append([tag, 0x6000 | (self.txn & 0x1fff), 1]); self.txn += 1
-                elif call.startswith("unsub"):
-                    self.unsubs.append([tag, 0x4000 | (self.txn & 0x1fff)]); self.txn += 1
-                elif call == "ping":
-                    self.ping = tag
+                for qt, qc, pid in queued:
+                    if qc.startswith("sub"):
+                        self.subs.append([qt, pid, 1])
+                    elif qc.startswith("unsub"):
+                        self.unsubs.append([qt, pid])
+                    elif qc == "ping" and slot == qt:
+                        self.ping = qt
+                if r.random() < 0.5 and self.ping:
+                    self.feed_and_read([mq.PINGRESP])
+                    self.ping = None
             elif what == "fail":
-                if call.startswith(("sub", "unsub")):
-                    self.txn += 1
                 self.emit("wgo " + r.choice(["t0", "e0", "c0", "t2"]))
                 self.link, self.parked, self.reader_out, self.doomed = "pending", False, False, False
                 self.subs, self.unsubs, self.ping = [], [], None
                 self.emit("rs")
             elif what == "brk":
-                if call.startswith(("sub", "unsub")):
-                    self.txn += 1
                 self.emit("brk")
                 self.link, self.parked, self.reader_out, self.doomed = "pending", False, False, False
                 self.subs, self.unsubs, self.ping = [], [], None
